@@ -204,7 +204,7 @@ func c08Alphabet(p string, full bool) [][]*resp.Bin {
 func TestC08(t *testing.T) {
 	h := newHarness(t, "C08", "server configured through SetRequirePass+Start; request alphabet = AUTH with every candidate of a dictionary built around the password ('' , null bulk, strict prefixes, password+suffix, case-swapped, embedded NUL, trailing CRLF, leading space, the password), "+
 		"two-argument AUTH with user names '' / default / x and right/wrong/empty passwords, AUTH without argument, and non-AUTH commands (GET, SET, SELECT, PING, ECHO, CONFIG GET, INCR, an unknown command). "+
-		"EXHAUSTIVE: all sequences of length <=3 (thorough: the same at 3 passwords) on one connection; all interleavings of two connections with <=2 requests each over a reduced alphabet; random: 1..3 connections, up to 8 requests each, random interleavings, 5 passwords. "+
+		"EXHAUSTIVE: all sequences of length <=3 (thorough: length <=4, and length <=3 at 2 more passwords) on one connection; all interleavings of two connections with <=2 requests each over a reduced alphabet; random: 1..3 connections, up to 8 requests each, random interleavings, 5 passwords. "+
 		"Oracle: per-connection authorization model; any handler call or non-error reply to a non-AUTH command on a connection whose model state is unauthorized, +OK to an AUTH not carrying exactly the password, or a refused exact AUTH is a violation. "+
 		"Non-trivial: a wrong AUTH candidate followed by a non-AUTH command on the same connection, or >=2 connections in different states. Distinct = distinct (password, sequence).")
 	defer h.Finish()
@@ -263,7 +263,11 @@ func TestC08(t *testing.T) {
 					}
 				}
 			}
-			if len(prefix) == 3 {
+			maxLen := 3
+			if h.Thorough() && pw == "sesame" {
+				maxLen = 4
+			}
+			if len(prefix) == maxLen {
 				return
 			}
 			for _, r := range alpha {
@@ -272,7 +276,7 @@ func TestC08(t *testing.T) {
 		}
 		rec(nil)
 	}
-	h.Col.Exhaustive("all request sequences of length<=3 on one connection over the full alphabet", complete)
+	h.Col.Exhaustive("all request sequences of length<=3 (thorough: <=4) on one connection over the full alphabet", complete)
 
 	// two connections, <=2 requests each, all interleavings, reduced alphabet
 	small := c08Alphabet("sesame", false)
@@ -307,7 +311,7 @@ twoconn:
 	h.Col.Exhaustive("all interleavings of two connections with 2 requests each over the reduced alphabet", complete)
 
 	rndPasswords := []string{"sesame", "Pa ss", "p\x00wörd", "x", "CaseSensitive"}
-	h.Rapid("random", h.N(4000, 50000), func(rt *rapid.T) {
+	h.Rapid("random", h.N(4000, 200000), func(rt *rapid.T) {
 		pw := rapid.SampledFrom(rndPasswords).Draw(rt, "pw")
 		alpha := c08Alphabet(pw, len(pw) > 1)
 		if len(pw) == 1 {
